@@ -17,7 +17,9 @@ EXTENDS Bridge, Json
 
 CONSTANTS CfgSet, Ids, Hosts, Lens, ReadMax, MaxOpens, MaxBytes, MaxDgrams, Depth, EmitEvery, Faults,
           WithBind, WithBridge,    \* switch the bind / bridge steps on
-          MaxNow                   \* virtual time may advance up to this value (0 = time stands still)
+          MaxNow,                  \* virtual time may advance up to this value (0 = time stands still)
+          AdvMsgs, MaxAdv          \* adversary mode (C10): B is a scripted raw peer that injects these messages towards A and
+                                   \* takes what A sends; MaxAdv = 0: two conforming endpoints
 
 VARIABLES st, hist
 vars == <<st, hist>>
@@ -53,7 +55,9 @@ Rd(e) ==
 Shut(e) == \E h \in AppHs(e) : \E t \in Shutdown(st, e, h) : Rec2(t, [op |-> "shutdown", e |-> e, h |-> h])
 Drp(e) == \E h \in AppHs(e) : \E t \in DropStream(st, e, h) : Rec2(t, [op |-> "drop", e |-> e, h |-> h])
 Cnc(e) == \E c \in DOMAIN st.calls[e] : \E t \in CancelCall(st, e, c) : Rec2(t, [op |-> "cancel", e |-> e, c |-> c])
-DMux(e) == \E t \in DropMux(st, e) : Rec2(t, [op |-> "drop_mux", e |-> e])
+(* not in adversary mode: after a local drop the endpoint waits for the peer's Close (finding F20), which a scripted raw
+   peer that has nothing more to say never sends *)
+DMux(e) == MaxAdv = 0 /\ \E t \in DropMux(st, e) : Rec2(t, [op |-> "drop_mux", e |-> e])
 DgS(e) ==
   /\ Len(st.dgSent[e]) < MaxDgrams
   /\ \E host \in Hosts, data \in {"dd", "", "e"}, id \in {0, 1, 2} : \E t \in SendDgram(st, e, id, host, 9, data, FALSE) :
@@ -72,6 +76,14 @@ Flt(e) ==
 (* time passes (keepalive) *)
 Adv == \E d \in {1, 1, 2} : st.now + d <= MaxNow /\
          \E t \in AdvanceTo(st, st.now + d) : Rec2(t, [op |-> "advance", e |-> "A", d |-> d])
+
+(* the scripted raw peer (one real endpoint) *)
+AdvI == /\ st.advn < MaxAdv
+        /\ \E m \in AdvMsgs : \E t \in Inject(st, "A", m) : Rec2(t, [op |-> "inject", e |-> "A", m |-> m])
+AdvT == /\ MaxAdv > 0 /\ st.wire["A"] # <<>>
+        /\ st' = [st EXCEPT !.wire["A"] = Tail(@), !.obs = NoObs]
+        /\ hist' = Append(hist, [op |-> "take", e |-> "B", res |-> "", sh |-> 0])
+Real == IF MaxAdv > 0 THEN {"A"} ELSE E
 
 (* bind requests *)
 BindS(e) ==
@@ -104,11 +116,11 @@ BrDrop(e) == WithBridge /\ \E b \in DOMAIN st.br[e] : st.br[e][b].res \in {"ok",
 
 Next ==
   /\ Len(hist) < Depth
-  /\ \E e \in E : Open(e) \/ OpenP(e) \/ Acc(e) \/ Wr(e) \/ Rd(e) \/ Shut(e) \/ Drp(e) \/ DMux(e) \/ Cnc(e)
+  /\ \/ AdvI \/ AdvT \/ Adv
+     \/ \E e \in Real : Open(e) \/ OpenP(e) \/ Acc(e) \/ Wr(e) \/ Rd(e) \/ Shut(e) \/ Drp(e) \/ DMux(e) \/ Cnc(e)
                   \/ DgS(e) \/ DgG(e) \/ Task(e) \/ Task(e) \/ Flt(e)
                   \/ BindS(e) \/ BindP(e) \/ NextB(e) \/ BReply(e) \/ BDrop(e)
                   \/ BrStart(e) \/ BrPoll(e) \/ BrDrop(e)
-                  \/ Adv
 Spec == Init /\ [][Next]_vars
 
 (* one line per behaviour prefix of length EmitEvery, 2*EmitEvery, ... (behaviours may end early: a
@@ -120,6 +132,12 @@ NoViolation == st.viol = {}
 MkCfg(rwnd, thr, ac, dg, bc, rt) ==
   [rwnd |-> rwnd, thr |-> thr, acceptCap |-> ac, dgCap |-> dg, bindCap |-> bc, retries |-> rt, kaI |-> 0, kaT |-> 0]
 SchedCfgs == {MkCfg(r, t, a, 1, 0, rt) : r \in 1..2, t \in 1..3, a \in 1..2, rt \in 1..2}
+AdvSetS ==
+  UNION {{MConnect(i, n, "hx", 1, 0) : n \in {0, 1, 2}} \cup {MAck(i, n, 0) : n \in {0, 1, 2}}
+         \cup {MReset(i, 0), MFinish(i, 0), MBind(i, 1, "bx", 1, 0), MBind(i, 3, "", 0, 0), MDgram(i, "dx", 5, "a", 0), MDgram(i, "", 0, "", 0)}
+         \cup {MPush(i, 1, 0, l, 0) : l \in {0, 1, 2}} : i \in {0, 1, 2}}
+  \cup {MkMsg("junk"), MkMsg("ping"), MkMsg("pong"), MkMsg("close")}
+SchedCfgsA == {MkCfg(r, t, a, 1, bc, 2) : r \in 1..2, t \in 1..2, a \in 1..2, bc \in 0..1}
 SchedCfgsD == {MkCfg(r, 1, 1, dg, 0, 1) : r \in 1..2, dg \in 1..4}
 SchedCfgsK == {[MkCfg(r, 1, 1, 1, 0, 1) EXCEPT !.kaI = i, !.kaT = t] : r \in 1..2, i \in 1..2, t \in {0, 1, 2, 3, 4}}
 SchedCfgsB == {MkCfg(r, t, 1, 1, bc, 2) : r \in 1..2, t \in 1..2, bc \in 0..2}
